@@ -21,3 +21,13 @@ mod c07 {
 mod c10 {
     include!(concat!(env!("CLAP_VERIF_DIR"), "/c10.rs"));
 }
+#[cfg(kani)]
+#[allow(dead_code, unused_imports, unused_qualifications, clippy::all)]
+mod c04 {
+    include!(concat!(env!("CLAP_VERIF_DIR"), "/c04.rs"));
+}
+#[cfg(kani)]
+#[allow(dead_code, unused_imports, unused_qualifications, clippy::all)]
+mod c20 {
+    include!(concat!(env!("CLAP_VERIF_DIR"), "/c20.rs"));
+}
